@@ -63,6 +63,8 @@ func HandWritten() []*Case {
 		mk("h48", "same-directive-text-on-two-tables", "ph48", "// gomacro:SQL ADD UNIQUE(Name)\n// gomacro:SQL ADD CHECK (Rank > 0)\ntype Author struct {\n\tId int64\n\tName string\n\tRank int\n}\n\n// gomacro:SQL ADD UNIQUE(Name)\ntype Publisher struct {\n\tId int64\n\tName string\n}\n\n// gomacro:SQL ADD UNIQUE(Name)\n// gomacro:SQL ADD CHECK (Rank > 0)\ntype Shelf struct {\n\tId int64\n\tName string\n\tRank int\n}\n", ""),
 		mk("h49", "embedded-struct-with-a-tag-without-name", "ph49", "type Base struct {\n\tA int\n\tB string `json:\"b\"`\n}\ntype Meta struct {\n\tKind string `json:\"kind\"`\n\tVersion int\n}\ntype Doc struct {\n\tBase `json:\",omitempty\"`\n\tMeta `json:\",inline\"`\n\tTitle string\n}\ntype Note struct {\n\tMeta `json:\"\"`\n\tText string\n}\n", ""),
 		mk("h50", "embedded-struct-with-a-named-tag", "ph50", "type Base struct {\n\tA int\n\tB string `json:\"b\"`\n}\ntype Hidden struct{ H int }\ntype Doc struct {\n\tBase `json:\"base\"`\n\tTitle string\n}\ntype Doc2 struct {\n\tHidden `json:\"-\"`\n\tTitle string\n}\n", ""),
+		mk("h51", "null-struct-over-an-alias-of-time", "ph51", "type TT = time.Time\ntype NT struct {\n\tValid bool\n\tT TT\n}\ntype Row struct {\n\tId int64\n\tAt NT\n}\n", ""),
+		mk("h52", "select-key-naming-an-unknown-column", "ph52", "// gomacro:SQL _SELECT KEY(Foo)\ntype Row struct {\n\tId int64\n\tName string\n}\n", ""),
 		mk("h44", "json-column-of-recursive-named-container", "ph44", "type Tree []Tree\ntype Dict map[string]Dict\ntype T struct {\n\tId int64\n\tTree Tree\n\tDict Dict\n}\n", ""),
 		mk("h45", "enum-constants-over-two-files-with-equal-values", "ph45", "type Color int\nconst (\n\tRed Color = iota\n\tGreen\n\tBlue\n)\ntype Paint struct {\n\tC Color\n\tL Level\n}\n", "const defaultColor = Green\nconst fallbackColor Color = Red\ntype Level uint8\nconst (\n\tLow Level = iota\n\tHigh\n)\nconst levelUnset Level = 255\nconst levelDefault = Low\n"+bigPadding()),
 		withSub(mk("h40", "embedded-non-struct-fields", "ph40", "type Kind int\nconst (\n\tPlain Kind = iota + 1\n\tFancy\n)\ntype Level string\nconst (\n\tLow Level = \"low\"\n\tHigh Level = \"high\"\n)\ntype Tags []string\ntype Shape struct {\n\tKind\n\tLevel\n\tTags\n\tName string\n\tAt geo.Point\n}\n", ""), "geo", "type Geometry interface{ isGeometry() }\ntype Point struct{ X, Y float64 }\nfunc (Point) isGeometry() {}\ntype Line struct{ A, B Point }\nfunc (Line) isGeometry() {}\n"),
@@ -73,6 +75,16 @@ func HandWritten() []*Case {
 	out = append(out, RecursionShapes()...)
 	out = append(out, SameNamedPackages()...)
 	return out
+}
+
+// KnownDefects returns programs that reproduce recorded findings which the random grammar is kept
+// away from (they would show in every check that compiles or marshals the program); only the
+// runner of the property the finding is recorded under includes them.
+func KnownDefects() []*Case {
+	c := &Case{ID: "kd01", Feat: []string{"hand:embedded-unexported-struct-named-by-its-tag"}}
+	c.Main = &Pkg{Name: "pkd01", Imports: map[string]string{}}
+	c.Main.Files = []*File{{Name: "defs.go", Decls: []*Decl{{Kind: "raw", Name: "kd01", Text: "type base struct {\n\tA int\n\tB string\n}\ntype Doc struct {\n\tbase `json:\"base\"`\n\tTitle string\n}\n"}}}}
+	return []*Case{c}
 }
 
 // RecursionShapes returns one program per way a type can refer to itself (termination of the analysis).
